@@ -230,8 +230,30 @@ def run_two_dec(sx, cfg, env):
     _two(sx, env, lambda: env["rq"].decode(msg), lambda: env["rq_b"].decode(msg), _same_val)
 
 
+def _c17_layers():
+    from harness.c06 import C, V, rq
+    U8 = {"dt": "A_UINT32", "bl": 8}
+    PC = lambda name, value: dict(kind="physconst", name=name, dop=U8, value=value)  # noqa: E731
+    return {
+        # two coding objects of one service share their constant prefix; the first one carries a
+        # PHYS-CONST behind a VALUE parameter: where it does not fit, strict mode reports a
+        # decode error, lenient mode a warning
+        "shared-prefix-physconst": {"services": [
+            {"name": "A", "request": rq(C("sid", 0x22), V("did")),
+             "pos": [rq(C("sid", 0x62), V("kind"), PC("pc", 7)),
+                     rq(C("sid", 0x62), V("kind"), V("data"))]},
+            {"name": "B", "request": rq(C("sid", 0x23)),
+             "pos": [rq(C("sid", 0x63), PC("pc", 1), V("x"))]}]},
+    }
+
+
 def build_layer(cfg):
     from harness import c06
+    own = _c17_layers()
+    if cfg["layer"] in own:
+        import odxtools.isotp_state_machine  # noqa
+        from catalogue import build
+        return {"layer": build.build_layer(own[cfg["layer"]]), "spec": own[cfg["layer"]]}
     return c06.build_layer(cfg)
 
 
@@ -293,6 +315,18 @@ HARNESSES = {
 }
 from harness import composite as _cp  # noqa: E402
 HARNESSES["compdec"]["build"] = _cp.build_composite
+
+
+def _fresh(name):
+    """the description objects are rebuilt for every path and every replay: state that a lenient
+    run leaves behind on them (registered DTCs, caches) must show up in the strict run that
+    follows on the SAME path, and must not leak into other paths"""
+    build, run = HARNESSES[name]["build"], HARNESSES[name]["run"]
+    HARNESSES[name]["run"] = lambda sx, cfg, env: run(sx, cfg, build(cfg))
+
+
+for _n in ("enc", "dec", "compdec", "layer"):
+    _fresh(_n)
 STUBS = cc.STUBS + ["odxtools.exceptions.strict_mode is flipped by the harness itself (that is the "
                     "operation under test)", "logging of downgraded problems is silenced"]
 
@@ -346,9 +380,13 @@ def configs(tier, seed):
                 out.append(d)
     for name in ("table", "table-row-ref", "mux", "dtc", "dynlen-field", "static-field",
                  "endmarker-field-mid", "length-key", "structure-bytesize", "physconst-reserved"):
-        for n in ((2, 3, 4) if tier == "quick" else range(0, 7)):
+        for n in ((2, 3, 4, 5) if tier == "quick" else range(0, 8)):
             out.append({"id": f"compdec/{name}/len{n}", "harness": "compdec", "what": "request",
                         "name": name, "mlen": n, "build": {"what": "request", "name": name}})
+    for fb in (0x22, 0x62, 0x63):
+        out.append({"harness": "layer", "layer": "shared-prefix-physconst", "mlen": 3, "first": fb,
+                    "build": {"layer": "shared-prefix-physconst"},
+                    "id": f"layer/shared-prefix-physconst/len3/b{fb:02x}"})
     for layer in ("negative-responses", "global-negative"):
         firsts = [0x10, 0x11, 0x50, 0x7F]
         for n in (3,):
